@@ -25,7 +25,7 @@ impl Group for E2eGroup {
             l("e2e badpreamble good 1"), l("e2e badpreamble trimmed 1"), l("e2e badpreamble good 3"), l("e2e badpreamble trimmed 5"), l("e2e badpreamble lower 10"),
             l("e2e pushe2e"), l("e2e preamble 77"), l("e2e udp 1 100 1472 9000"), l("e2e early socks 300"),
             l("e2e slow up direct 6000000"), l("e2e slow down socks 6000000"), l("e2e slow up socks 3000000"), l("e2e slow down http 3000000"), l("e2e slow up http 3000000"),
-            l("e2e blackhole all"), l("e2e noname"), l("e2e certreload BxCtAmB"), l("e2e certreload xBEC"),
+            l("e2e blackhole all"), l("e2e noname"), l("e2e certreload BxCtAmB"), l("e2e certreload xBEC"), l("e2e certreload DADxB"),
         ];
         all.into_iter().filter(|c| wanted(&c.lines[0])).collect()
     }
@@ -40,7 +40,7 @@ impl Group for E2eGroup {
             7 => format!("e2e udp {}", (0..rng.range(1, 5)).map(|_| rng.pick(&[1usize, 2, 100, 1472, 9000, 30000]).to_string()).collect::<Vec<_>>().join(" ")),
             8 => format!("e2e early socks {}", rng.pick(&[1usize, 300, 20000])),
             9 => format!("e2e slow {} {} {}", rng.pick(&["up", "down"]), rng.pick(&["socks", "http", "direct"]), rng.pick(&[1_000_000usize, 3_000_000, 6_000_000, 12_000_000])),
-            10 => if rng.chance(1, 2) { format!("e2e blackhole {}", rng.pick(&["socks", "http", "direct"])) } else { format!("e2e certreload {}", (0..rng.range(1, 8)).map(|_| *rng.pick(&["A", "B", "C", "x", "t", "m", "E"])).collect::<String>()) },
+            10 => if rng.chance(1, 2) { format!("e2e blackhole {}", rng.pick(&["socks", "http", "direct"])) } else { format!("e2e certreload {}", (0..rng.range(1, 8)).map(|_| *rng.pick(&["A", "B", "C", "D", "x", "t", "m", "E"])).collect::<String>()) },
             _ => "e2e refused socks".to_string(),
         };
         if !wanted(&line) {
@@ -60,7 +60,7 @@ impl Group for E2eGroup {
                 "blackhole" => format!("e2e blackhole {}", rng.pick(&["socks", "http", "direct"])),
                 "noname" => "e2e noname".to_string(),
                 "preamble" => format!("e2e preamble {}", rng.range(31, 900)),
-                "certreload" => format!("e2e certreload {}", (0..rng.range(1, 8)).map(|_| *rng.pick(&["A", "B", "C", "x", "t", "m", "E"])).collect::<String>()),
+                "certreload" => format!("e2e certreload {}", (0..rng.range(1, 8)).map(|_| *rng.pick(&["A", "B", "C", "D", "x", "t", "m", "E"])).collect::<String>()),
                 "reaper" => "e2e reaper".to_string(),
                 _ => "e2e pushe2e".to_string(),
             };
@@ -431,9 +431,10 @@ async fn noname() -> Res {
 /// step must still carry data after the last one.
 async fn certreload(script: &str) -> Res {
     use anytls_rs::util::{CertReloader, CertReloaderConfig};
-    let pairs: Vec<crate::g_cert::Pair> = vec![crate::g_cert::make_pair("a", false), crate::g_cert::make_pair("b", false), crate::g_cert::make_pair("c", false), crate::g_cert::make_pair("e", true)];
-    let idx = |c: char| match c { 'A' => 0usize, 'B' => 1, 'C' => 2, _ => 3 };
-    let name_of = |der: &[u8]| -> String { pairs.iter().position(|p| p.cert_der == der).map(|i| ["A", "B", "C", "E"][i].to_string()).unwrap_or("?".into()) };
+    // (A and D share their serial number: D is a renewal of A that keeps the serial)
+    let pairs: Vec<crate::g_cert::Pair> = vec![crate::g_cert::make_pair_with("a", false, Some(0x4131), 2036), crate::g_cert::make_pair("b", false), crate::g_cert::make_pair("c", false), crate::g_cert::make_pair("e", true), crate::g_cert::make_pair_with("a", false, Some(0x4131), 2037)];
+    let idx = |c: char| match c { 'A' => 0usize, 'B' => 1, 'C' => 2, 'D' => 4, _ => 3 };
+    let name_of = |der: &[u8]| -> String { pairs.iter().position(|p| p.cert_der == der).map(|i| ["A", "B", "C", "E", "D"][i].to_string()).unwrap_or("?".into()) };
     let dir = tempfile::TempDir::new().map_err(|e| e.to_string())?;
     let (cp, kp) = (dir.path().join("cert.pem"), dir.path().join("key.pem"));
     std::fs::write(&cp, &pairs[0].cert_pem).map_err(|e| e.to_string())?;
@@ -481,9 +482,9 @@ async fn certreload(script: &str) -> Res {
         // the previous handshakes are over: the listener is parked in accept() again
         tokio::time::sleep(Duration::from_millis(40)).await;
         let valid = match c {
-            'A' | 'B' | 'C' | 'E' => { let p = &pairs[idx(c)]; std::fs::write(&cp, &p.cert_pem).map_err(|e| e.to_string())?; std::fs::write(&kp, &p.key_pem).map_err(|e| e.to_string())?; c != 'E' }
-            'x' => { std::fs::write(&kp, &pairs[(active + 1) % 3].key_pem).map_err(|e| e.to_string())?; false }
-            't' => { let full = pairs[(active + 1) % 3].cert_pem.as_bytes().to_vec(); std::fs::write(&cp, &full[..full.len() / 2]).map_err(|e| e.to_string())?; false }
+            'A' | 'B' | 'C' | 'E' | 'D' => { let p = &pairs[idx(c)]; std::fs::write(&cp, &p.cert_pem).map_err(|e| e.to_string())?; std::fs::write(&kp, &p.key_pem).map_err(|e| e.to_string())?; c != 'E' }
+            'x' => { std::fs::write(&kp, &pairs[[1usize, 2, 0, 0, 1][active]].key_pem).map_err(|e| e.to_string())?; false }
+            't' => { let full = pairs[[1usize, 2, 0, 0, 1][active]].cert_pem.as_bytes().to_vec(); std::fs::write(&cp, &full[..full.len() / 2]).map_err(|e| e.to_string())?; false }
             'm' => { let _ = std::fs::remove_file(&cp); false }
             _ => return Err("bad script".into()),
         };
@@ -494,7 +495,7 @@ async fn certreload(script: &str) -> Res {
         if r.is_ok() && valid { active = idx(c); }
         let h1 = served().await?;
         let h2 = served().await?;
-        let want = ["A", "B", "C", "E"][active];
+        let want = ["A", "B", "C", "E", "D"][active];
         for (k, h) in [(1, &h1), (2, &h2)] {
             if *h != pairs[active].cert_der && r.is_ok() == valid {
                 fails.push(fail(&format!("wrong_certificate_served/handshake_{k}_after_reload"), format!("step {c}: the last successful reload installed pair {want}; handshake number {k} after the step was served with {}", name_of(h))));
